@@ -33,11 +33,22 @@ class Pipeline:
         for n in ast.walk(init):
             if isinstance(n, ast.Assign) and isinstance(n.targets[0], ast.Attribute) and n.targets[0].attr == attr:
                 # list(..) / tuple(..) around the display change nothing; enumerate/iter/map/.. make it a one-shot iterator
-                while isinstance(n.value, ast.Call) and isinstance(n.value.func, ast.Name) and len(n.value.args) >= 1 and isinstance(n.value.args[0], (ast.List, ast.Tuple, ast.Call)) \
+                def _local(v):
+                    # a local of __init__ bound exactly once stands for what it was bound to
+                    if isinstance(v, ast.Name):
+                        binds = [a for a in ast.walk(init) if isinstance(a, ast.Assign) and any(isinstance(t, ast.Name) and t.id == v.id for t in a.targets)]
+                        others = [a for a in ast.walk(init) if isinstance(a, (ast.AugAssign, ast.For)) and any(isinstance(t, ast.Name) and t.id == v.id and isinstance(t.ctx, ast.Store) for t in ast.walk(a))]
+                        muts = [c for c in ast.walk(init) if isinstance(c, ast.Call) and isinstance(c.func, ast.Attribute) and isinstance(c.func.value, ast.Name) and c.func.value.id == v.id]
+                        if len(binds) == 1 and not others and not muts:
+                            return binds[0].value
+                    return v
+
+                n = ast.Assign(targets=n.targets, value=_local(n.value), lineno=n.lineno)
+                while isinstance(n.value, ast.Call) and isinstance(n.value.func, ast.Name) and len(n.value.args) >= 1 and isinstance(_local(n.value.args[0]), (ast.List, ast.Tuple, ast.Call)) \
                         and n.value.func.id in ("list", "tuple", "enumerate", "iter", "reversed", "zip", "map", "filter"):
                     if n.value.func.id not in ("list", "tuple"):
                         self.oneshot = getattr(self, "oneshot", []) + [(attr, n.value.func.id, n)]
-                    n = ast.Assign(targets=n.targets, value=n.value.args[-1] if n.value.func.id in ("map", "filter") else n.value.args[0], lineno=n.lineno)
+                    n = ast.Assign(targets=n.targets, value=_local(n.value.args[-1] if n.value.func.id in ("map", "filter") else n.value.args[0]), lineno=n.lineno)
                 if isinstance(n.value, ast.Tuple):
                     n = ast.Assign(targets=n.targets, value=ast.List(elts=n.value.elts, ctx=ast.Load()), lineno=n.lineno)
                 if not isinstance(n.value, ast.List):
@@ -97,6 +108,8 @@ class Pipeline:
                         rets = [s for s in n.body if isinstance(s, ast.Return)]
                         if rets and (rets[0].value is None or (isinstance(rets[0].value, ast.Constant) and rets[0].value.value is None)):
                             good = True
+            if not good:
+                good = any(self._gated_by_paths(lp)[0] for lp in loops)
             col.check(good, rule, f"{COMPILER}::Compiler.Compile {attr} loop",
                       f"every pass of {attr} is run and a failing pass makes Compile return None",
                       f"the {attr} loop does not stop compilation (return None) when a pass reports failure", COMPILER, c)
@@ -124,6 +137,9 @@ class Pipeline:
         for attr in ("astPasses", "irPasses"):
             for lp in [n for n in ast.walk(c) if isinstance(n, ast.For) and attr in unparse(n.iter)]:
                 deferred = [n for n in ast.walk(lp) if isinstance(n, (ast.Assign, ast.AugAssign)) and any(isinstance(x, ast.Call) and last_attr(x) in ("__RunPass", "Process") for x in ast.walk(n))]
+                if deferred and self._gated_by_paths(lp)[1]:
+                    # the result is held in a local, and that local is tested on every path before the iteration ends
+                    deferred = []
                 col.check(not deferred, rule, f"{COMPILER}::Compiler.Compile {attr} verdict is tested per pass", "`if not self.__RunPass(...)` inside the loop",
                           f"`{unparse(deferred[0])[:60] if deferred else ''}` stores the pass result instead of testing it at once: a later pass overwrites it, only the last pass decides", COMPILER, deferred[0] if deferred else lp)
         # lowering happens after the AST pass loop
@@ -140,6 +156,31 @@ class Pipeline:
                 order.append("wasm")
         col.check(order[:3] == ["ast", "lower", "ir"], rule, f"{COMPILER}::Compiler.Compile stage order",
                   f"stages run in the order {order}", f"stage order is {order}; expected AST passes, lowering, IR passes", COMPILER, c)
+
+    def _gated_by_paths(self, lp):
+        """(a failing pass ends Compile with None on every path, every pass result is tested in its own iteration), decided
+        on the paths of one pass loop's body; the result may be held in a local."""
+        from .paths import cond_atoms
+
+        stops = tested = True
+        seen = 0
+        for evs, status in paths(lp.body):
+            runs = [x for x in calls_on_path(evs) if last_attr(x) == "__RunPass"]
+            if not runs:
+                continue
+            seen += 1
+            held = {t.id for e in evs if e.kind == "stmt" and isinstance(e.node, ast.Assign) and isinstance(e.node.value, ast.Call) and last_attr(e.node.value) == "__RunPass"
+                    for t in e.node.targets if isinstance(t, ast.Name)}
+            a = cond_atoms(evs)
+            v = next((val for k, val in a.items() if "__RunPass(" in k or k in held), None)
+            if v is None:
+                tested = False
+                stops = False
+            elif v is False:
+                rv = evs[-1].node.value if status == "return" and isinstance(evs[-1].node, ast.Return) else "no return"
+                if not (status == "return" and (rv is None or (isinstance(rv, ast.Constant) and rv.value is None))):
+                    stops = False
+        return (seen > 0 and stops), (seen > 0 and tested)
 
     def check_runpass_wellformed(self, col, rule):
         """Every attribute __RunPass uses on the pass object exists on Pass."""
